@@ -11,8 +11,19 @@ import (
 	"unsafe"
 )
 
-// Hook, when set, is called before every instrumented field access.
-var Hook func(addr uintptr, write bool, site string)
+// Access kinds reported to Hook.
+const (
+	AccRead  = 0
+	AccWrite = 1
+	// AccUse: a package-level variable of reference type is used as a method
+	// receiver or call argument: the variable is read, whatever it refers to
+	// may be mutated by the callee.
+	AccUse = 2
+)
+
+// Hook, when set, is called before every instrumented access (struct fields
+// and package-level variables of the instrumented packages).
+var Hook func(addr uintptr, kind int, site string)
 
 // escape forces every hooked object onto the heap: stack slots are recycled
 // between goroutines when stacks grow, which would make two unrelated
@@ -23,7 +34,7 @@ var escape unsafe.Pointer
 func R[T any](p *T, site string) *T {
 	if Hook != nil {
 		escape = unsafe.Pointer(p)
-		Hook(uintptr(unsafe.Pointer(p)), false, site)
+		Hook(uintptr(unsafe.Pointer(p)), AccRead, site)
 	}
 	return p
 }
@@ -32,7 +43,17 @@ func R[T any](p *T, site string) *T {
 func W[T any](p *T, site string) *T {
 	if Hook != nil {
 		escape = unsafe.Pointer(p)
-		Hook(uintptr(unsafe.Pointer(p)), true, site)
+		Hook(uintptr(unsafe.Pointer(p)), AccWrite, site)
+	}
+	return p
+}
+
+// M marks a use of the reference held in *p by a callee that may mutate what
+// it refers to.
+func M[T any](p *T, site string) *T {
+	if Hook != nil {
+		escape = unsafe.Pointer(p)
+		Hook(uintptr(unsafe.Pointer(p)), AccUse, site)
 	}
 	return p
 }
